@@ -17,6 +17,7 @@ Every other instruction theorem (C01, C02, C03, C05) is stated over `Spec.ea`, s
 breaks them as well.
 -/
 import Emu8086.Lemmas.Mem
+import Emu8086.Model.Norm
 
 namespace Emu8086.Props.C04
 open Emu8086 Emu8086.Spec
@@ -158,5 +159,44 @@ theorem lea_full_fails :
 
 example : KF.lea 0#16 1#16 = true := by decide
 example : KF.lea 5#16 5#16 = false := by decide
+
+end Emu8086.Props.C04
+
+/-! ### normal form of operands (used by the source-level operand correspondence, request `opnd`) -/
+namespace Emu8086.Props.C04
+open Emu8086
+
+theorem segOf_norm (m : Machine) (a : MemAddr) : m.segOf a.norm = m.segOf a := by
+  obtain ⟨seg, base, index, disp⟩ := a
+  cases seg with
+  | some s => rfl
+  | none =>
+    cases base with
+    | none => rfl
+    | some b => cases b <;> rfl
+
+theorem offsetOf_norm (m : Machine) (a : MemAddr) : m.offsetOf a.norm = m.offsetOf a := by
+  obtain ⟨seg, base, index, disp⟩ := a
+  cases disp <;> rfl
+
+theorem resolveMem_norm (m : Machine) (a : MemAddr) : m.resolveMem a.norm = m.resolveMem a := by
+  simp only [Machine.resolveMem, segOf_norm, offsetOf_norm]
+
+theorem resolve8_norm (m : Machine) (ctx : Ctx) (o : Op8) : resolve8 m ctx o.norm = resolve8 m ctx o := by
+  cases o <;> simp [Op8.norm, resolve8, resolveMem_norm]
+theorem resolve16_norm (m : Machine) (ctx : Ctx) (o : Op16) : resolve16 m ctx o.norm = resolve16 m ctx o := by
+  cases o <;> simp [Op16.norm, resolve16, resolveMem_norm]
+
+/-- writing the default segment out (and a missing displacement as 0) never changes execution -/
+theorem exec_norm (cur : Nat) (m : Machine) (ctx : Ctx) (i : Instr) : exec cur m ctx i.norm = exec cur m ctx i := by
+  cases i <;> simp only [Instr.norm, exec, resolve8_norm, resolve16_norm]
+
+/-- and the normal form says which segment is used: the override, else SS for BP, else DS -/
+theorem norm_seg (a : MemAddr) :
+    a.norm.seg = some (match a.seg with | some s => s | none => if a.base = some .BP then .SS else .DS) := by
+  obtain ⟨seg, base, index, disp⟩ := a
+  cases seg <;> simp [MemAddr.norm]
+  cases base <;> simp
+  rename_i b; cases b <;> simp
 
 end Emu8086.Props.C04
